@@ -340,7 +340,7 @@ def explore_partition(harness, part, budget_s, per_path_timeout=60.0, seed=0, ma
     gc_was = gc.isenabled()
     seen_sigs = set()
     while st["paths"] < max_paths:
-        if time.process_time() - t0 > budget_s or time.time() - w0 > budget_s * 1.5:
+        if time.process_time() - t0 > budget_s or time.time() - w0 > budget_s * 1.15:
             break
         start = time.process_time()
         space = ch.StateSpace(execution_deadline=start + per_path_timeout,
